@@ -32,12 +32,12 @@ Next ==
             /\ (~Ev.ok => Report("search-failed", l))
             /\ LET vis == SetOf(Ev.resV) IN
                \* (inside an image with an injected damage the durable documents of the damaged segment are legitimately gone: StoreT decides those exactly)
-               /\ ((Ev.k >= 100 /\ Ev.ok /\ ~Damaged /\ ~(expect \subseteq vis)) => Report("acked-lost", expect \ vis))
+               /\ ((Ev.k >= 100 /\ Ev.cut = 0 /\ Ev.ok /\ ~Damaged /\ ~(expect \subseteq vis)) => Report("acked-lost", expect \ vis))
                /\ ((Ev.tm /\ Ev.ok /\ ~Damaged /\ ((Ev.hasT /\ ~(expect \subseteq SetOf(Ev.resT))) \/ (Ev.hasM /\ ~(expect \subseteq SetOf(Ev.resM))))) => Report("acked-lost-textmeta", expect))
                /\ ((vis \cup SetOf(Ev.resT) \cup SetOf(Ev.resM)) \cap removed # {} => Report("zombie", (vis \cup SetOf(Ev.resT) \cup SetOf(Ev.resM)) \cap removed))
                /\ (~((vis \cup SetOf(Ev.resT) \cup SetOf(Ev.resM)) \subseteq ever) => Report("phantom", (vis \cup SetOf(Ev.resT) \cup SetOf(Ev.resM)) \ ever))
                \* vector-only query over an exact index: the k nearest of what an in-memory index holding the same live documents would return
-               /\ ((Ev.k < 100 /\ Ev.ok /\ Ev.ref # <<>> /\ SetOf(Ev.resV) # SetOf(Ev.ref)) => Report("knn-differs", <<Ev.resV, Ev.ref>>))
+               /\ (((Ev.k < 100 \/ Ev.cut > 0) /\ Ev.ok /\ (Ev.ref # <<>> \/ Ev.cut > 0) /\ SetOf(Ev.resV) # SetOf(Ev.ref)) => Report("knn-differs", <<Ev.resV, Ev.ref>>))
             /\ UNCHANGED <<expect, durable, ever, removed, maxSid, saved>>
        [] Ev.op = "open.failed" -> Report("open-failed", l) /\ UNCHANGED <<expect, durable, ever, removed, maxSid, saved>>
        [] Ev.op = "image.begin" -> saved' = <<expect, durable, ever, removed, maxSid, Ev.damage.kind>> /\ expect' = durable /\ UNCHANGED <<durable, ever, removed, maxSid>>
